@@ -60,7 +60,7 @@ def features(case, vio):
         feats.add("threads")
     if any(o["k"] == "conc" for o in case["ops"]):
         feats.add("has_conc")
-    if any(o.get("abort_at") for o in case["ops"]):
+    if any(o.get("abort_at") or o.get("abort_gen") for o in case["ops"]):
         feats.add("abort")
     if op["k"] == "codec":
         feats.add("codec")
